@@ -87,7 +87,7 @@ def gen_history(rng):
             else:
                 # disturbed: after `at` yields apply a table change
                 q = rng.choice(pids)
-                hist.append(["iter", None, [rng.randrange(0, 4), rng.choice(["vanish", "spawn", "respawn"]), q], None])
+                hist.append(["iter", None, [rng.randrange(0, 5), rng.choice(["vanish", "spawn", "respawn", "respawn_isrun", "respawn_isrun"]), q], None])
         elif r < 0.80:
             hist.append(["clear"])
         elif r < 0.93:
@@ -180,6 +180,8 @@ def run_history(hist, acc):
                 _, stop_after, disturb, attrs = op
                 listed = sorted(w.t.procs)
                 listed_inc = {p: w.cur_inc(p) for p in listed}
+                flagged_before = set(flagged)
+                flagged_mid = set()
                 acc.count("iterations_checked")
                 got = []
                 exc = None
@@ -188,7 +190,21 @@ def run_history(hist, acc):
                     n = 0
                     while True:
                         if disturb is not None and n == disturb[0]:
-                            table_op([disturb[1], disturb[2]] + ([False] if disturb[1] == "spawn" else []))
+                            if disturb[1] == "respawn_isrun":
+                                # the pid of an object this (still suspended) iterator has just yielded is recycled and
+                                # the caller asks that object whether it is still running
+                                objs = [p for p in got if p.pid == disturb[2]]
+                                table_op(["respawn", disturb[2]])
+                                if objs:
+                                    r = objs[0].is_running()
+                                    acc.count("midscan_is_running_on_yielded_object")
+                                    if r is False and id(objs[0]) not in said_false:
+                                        flagged.add(disturb[2])
+                                        flagged_mid.add(disturb[2])
+                                    if r is False:
+                                        said_false.add(id(objs[0]))
+                            else:
+                                table_op([disturb[1], disturb[2]] + ([False] if disturb[1] == "spawn" else []))
                             nontrivial = True
                             disturb = None
                         if stop_after is not None and n >= stop_after:
@@ -242,7 +258,7 @@ def run_history(hist, acc):
                         info = getattr(p, "info", None)
                         if info is None or (want_keys is not None and set(info) != want_keys):
                             viols.append(("info_keys_wrong", ctx + f" op#{idx} pid={pid} info={info} attrs={attrs}"))
-                    if pid in flagged:
+                    if pid in flagged and pid in flagged_before:
                         nontrivial = True
                         if pid in model and p is model[pid][0]:
                             viols.append(("flagged_reuse_not_refreshed", ctx + f" op#{idx} pid={pid}"))
@@ -269,7 +285,8 @@ def run_history(hist, acc):
                             del model[pid]
                     # ... but then identity can not be asserted for them; flagged stays
                 if stop_after is None:
-                    flagged -= set(listed)
+                    flagged -= (set(listed) & flagged_before)
+                flagged |= flagged_mid
     acc.case(dict(hist=hist), nontrivial, viols)
 
 
@@ -355,6 +372,12 @@ def fixed_histories():
     out.append([["spawn", 7, False], ["spawn", 8, False], ["iter", None, None, None], ["respawn", 8], ["isrun_cached", 8],
                 ["iter", None, None, None], ["iter", None, None, None]])
     out.append([["spawn", 7, False], ["iter", None, None, None], ["clear"], ["iter", None, None, None]])
+    # a pid first seen by a still-suspended iterator is recycled and its object asked is_running()
+    for at in (3, 4):
+        out.append([["spawn", 7, False], ["spawn", 8, False], ["iter", None, [at, "respawn_isrun", 7], None],
+                    ["iter", None, None, None], ["iter", None, None, None], ["iter", None, None, None]])
+        out.append([["spawn", 7, False], ["iter", None, None, None], ["spawn", 8, False], ["iter", None, [4, "respawn_isrun", 8], None],
+                    ["iter", None, None, None], ["iter", None, None, None]])
     out.append([["spawn", 7, False], ["iter", None, None, None], ["vanish", 7], ["iter", None, None, None], ["spawn", 7, False],
                 ["iter", None, None, None]])
     for attrs in ATTRS:
